@@ -26,6 +26,10 @@ VERIF = os.path.dirname(os.path.dirname(os.path.abspath(__file__)))
 REPO = os.environ.get("VERIF_REPO", "/repo")
 WORK = os.path.join(VERIF, "work")
 COQ = os.path.join(VERIF, "coq")
+# one build directory and binary per source tree, so that checks of scratch copies (VERIF_REPO)
+# never share build state with checks of /repo
+REPO_TAG = "" if REPO == "/repo" else "_" + __import__("hashlib").sha1(REPO.encode()).hexdigest()[:10]
+HARNESS_BIN = os.path.join(WORK, "bin" + REPO_TAG, "lmdverif")
 GOENV = dict(os.environ, GOFLAGS="-mod=mod", GOPROXY="off", GOSUMDB="off", GOTOOLCHAIN="local",
              CGO_ENABLED=os.environ.get("CGO_ENABLED", "0"))
 FORBIDDEN = re.compile(r"\b(Admitted|admit|Axiom|Axioms|Parameter|Parameters|Conjecture|Conjectures|"
@@ -78,9 +82,9 @@ class Lock:
 def build_harness():
     """builds work/bin/lmdverif from /repo's working tree plus the overlay files.
     returns (ok, output)"""
-    hb = os.path.join(WORK, "hbuild")
+    hb = os.path.join(WORK, "hbuild" + REPO_TAG)
     os.makedirs(hb, exist_ok=True)
-    os.makedirs(os.path.join(WORK, "bin"), exist_ok=True)
+    os.makedirs(os.path.dirname(HARNESS_BIN), exist_ok=True)
     for name in ("go.mod", "main.go"):
         shutil.copyfile(os.path.join(VERIF, "harness", name), os.path.join(hb, name))
     gomod = open(os.path.join(hb, "go.mod")).read().replace("/repo/pkg/lmd", os.path.join(REPO, "pkg/lmd"))
@@ -91,7 +95,7 @@ def build_harness():
         overlay["Replace"][os.path.join(REPO, "pkg/lmd", "zz_verif_" + os.path.basename(path))] = path
     json.dump(overlay, open(os.path.join(hb, "overlay.json"), "w"), indent=1)
     rc, out, dur = sh(["go", "build", "-tags", "verif", "-overlay", "overlay.json", "-o",
-                       os.path.join(WORK, "bin", "lmdverif"), "."], cwd=hb, env=GOENV, timeout=900)
+                       HARNESS_BIN, "."], cwd=hb, env=GOENV, timeout=900)
     log("harness build rc=%d in %.1fs" % (rc, dur))
     return rc == 0, out
 
@@ -100,7 +104,7 @@ def harness(args, timeout=1800, env=None):
     e = dict(os.environ)
     if env:
         e.update(env)
-    return sh([os.path.join(WORK, "bin", "lmdverif")] + args, cwd=WORK, env=e, timeout=timeout)
+    return sh([HARNESS_BIN] + args, cwd=WORK, env=e, timeout=timeout)
 
 
 # ---------------------------------------------------------------------------
